@@ -127,6 +127,24 @@ def oracle_signal(ctx):
     return v
 
 
+def oracle_signal_under_fault(ctx):
+    """With an injected infrastructure fault the run may legitimately fail loudly (the engine turns a
+    lock error inside RunTask into a task failure); what C07 forbids is the SILENT loss of the
+    committed signal: it must have been consumed, or still be buffered."""
+    v = []
+    final = ctx["final"]
+    g = final.stages["G"]
+    resumes = sum(1 for e in ctx["ledger"] if e["stage"] == "G" and e["step"] == "resumed")
+    buffered = g["ctx"].get("_buffered_signals") or []
+    delivered = g["ctx"].get("_signal_name")
+    if resumes == 0 and not buffered and not delivered:
+        v.append({"kind": "committed-signal-silently-overwritten", "gate": g["status"], "wf": final.wf["status"],
+                  "sig": f"signal-overwritten:gate={g['status']}"})
+    if resumes > 1:
+        v.append({"kind": "signal-consumed-twice", "resumes": resumes, "sig": "signal-twice"})
+    return v
+
+
 def oracle_branches(ctx):
     v = []
     final = ctx["final"]
@@ -192,6 +210,13 @@ def jobs(tier, seed):
         for k in range(shards):
             js.append({"label": f"engine {name}|preemptions<={bound}|shard{k}/{shards}", "kind": "engine", "scenario": name,
                        "bound": bound, "shard": [k, shards]})
+    # one injected lock fault inside the RunTask handler (statement k) while a SignalStage handler races it:
+    # the handler's transaction rolls back and is retried with the same in-memory stage object
+    ks = range(16, 64) if tier == "quick" else range(0, 96)
+    for k in ks:
+        js.append({"label": f"engine SignalStage(persistent)||RunTask(suspends) + lock fault at statement {k}|preemptions<=1",
+                   "kind": "engine", "scenario": "SignalStage(persistent)||RunTask(suspends)", "bound": 1,
+                   "fault": [0, k]})
     js.sort(key=lambda j: (-j["bound"], j["kind"]))
     return js
 
@@ -203,10 +228,12 @@ def run_job(job):
         s = writer_job(job)
     else:
         spec, skip, setup, scripts, oracle = ENGINE[job["scenario"]]
+        if job.get("fault"):
+            oracle = oracle_signal_under_fault
         workload = make_workload(spec)
         sigspec = [{"stage": "G", "persistent": True, "name": "go", "data": {"n": 1}}]
         s = run_engine_scenario_with_signal(workload, skip, scripts, oracle, job["bound"], job.get("shard"), setup, sigspec,
-                                            job.get("time_cap", 1200))
+                                            job.get("time_cap", 1200), fault=job.get("fault"))
     viols, seen = [], set()
     for v in s.pop("_violations"):
         v["signature"] = f"e3:{v['sig']}@{job['scenario']}"
@@ -218,12 +245,12 @@ def run_job(job):
     return s
 
 
-def run_engine_scenario_with_signal(workload, skip, scripts, oracle, bound, shard, setup, sigspec, time_cap):
+def run_engine_scenario_with_signal(workload, skip, scripts, oracle, bound, shard, setup, sigspec, time_cap, fault=None):
     # `prepare` uses an Explorer without signal budget; inject the signal by hand when requested
     from vlib import e3
 
     if not setup:
-        return run_engine_scenario(workload, skip, scripts, oracle, bound, shard=shard, time_cap=time_cap)
+        return run_engine_scenario(workload, skip, scripts, oracle, bound, shard=shard, time_cap=time_cap, fault=fault)
     orig_prepare = e3.prepare
 
     def prepare_with_signal(workload_, skip_, *, events=False, setup_actions=(), max_steps=400):
@@ -257,7 +284,7 @@ def run_engine_scenario_with_signal(workload, skip, scripts, oracle, bound, shar
 
     e3.prepare = prepare_with_signal
     try:
-        return run_engine_scenario(workload, skip, scripts, oracle, bound, shard=shard, time_cap=time_cap)
+        return run_engine_scenario(workload, skip, scripts, oracle, bound, shard=shard, time_cap=time_cap, fault=fault)
     finally:
         e3.prepare = orig_prepare
 
